@@ -53,19 +53,7 @@ def run(ctx):
     for tkey in specgen.SET_KINDS:
         for inner in (apistream.reject_kinds(tkey) or [None])[: (2 if ctx.tier == 'quick' else 50)]:
             sweep.append(apistream.gen_sandwich(rng, tkey, inner)[0])
-    R0 = specgen
-    sweep.append([{'op': 'newfile', 'ident': 'MAIN-STORAGE-UNIT', 'seq': 1, 'vrl': 8192},
-                  {'op': 'lf', 'fh_id': R0.r_str('H'), 'fh_seq': R0.r_int(1)},
-                  {'op': 'origin', 'lf': 0, 'name': R0.r_int(3), 'set_name': None, 'origin': None, '_fh_id': 'H', 'kw': {}},      # D22 witness
-                  {'op': 'origin', 'lf': 0, 'name': R0.r_str('A'), 'set_name': 'S', 'origin': None, '_fh_id': 'H',
-                   'kw': {'file_set_number': R0.r_int(1), 'creation_time': R0.r_str('2020/01/01 00:00:00')}},
-                  {'op': 'origin', 'lf': 0, 'name': R0.r_str('B'), 'set_name': None, 'origin': R0.r_int(7), '_fh_id': 'H',
-                   'kw': {'file_set_number': R0.r_int(1), 'creation_time': R0.r_str('2020/01/01 00:00:00')}},
-                  {'op': 'add', 'lf': 0, 'type': 'zone', 'name': R0.r_str('Z'), 'set_name': None, 'origin': None, 'kw': {}},
-                  {'op': 'channel', 'lf': 0, 'name': R0.r_str('CH'), 'set_name': None, 'origin': None, 'kw': {},
-                   'data': {'dtype': 'float64', 'rows': 3, 'width': None, 'seed': 9}},
-                  {'op': 'frame', 'lf': 0, 'name': R0.r_str('F'), 'set_name': None, 'origin': None, 'kw': {}, 'channels': R0.r_list([R0.r_ref(4)])},
-                  {'op': 'write'}])
+    sweep.append(apistream.d22_witness())
     for explicit in (None, 40, 1):
         for before in (True, False):
             for second in (None, 7):
@@ -112,15 +100,7 @@ def run(ctx):
             # known finding D22: the only residue the model (= the implementation on this program, K-api agreed on both
             # histories) has for a rejected call is the empty set it registered (theorem C20_reject: same_content); a
             # difference is that residue when some rejected call was the first creating call for its (type, set name)
-            seen, first_for_set = set(), False
-            for s0, o0 in zip(prog, r['outs']):
-                if s0['op'] in ('origin', 'add', 'channel', 'frame'):
-                    key = (s0.get('lf', 0), s0.get('type') or s0['op'], s0.get('set_name') or None)
-                    if key not in seen and o0[0] == 'err':
-                        first_for_set = True
-                    seen.add(key)
-                elif s0['op'] == 'newfile':
-                    seen = set()
+            first_for_set = judge.rejected_first_for_set(prog, r['outs'])
             explained = first_for_set and r['agree'] and r2['agree']
             ctx.violation('rejected-call-left-a-trace', {**det, 'differences': diff[:5]},
                           finding_key='D22-empty-set-position' if explained else None)
